@@ -2,6 +2,7 @@
 MUST-invalidate, MUST-insert, AUTH-value, AUTH-va-writer, MUST-update-resets, FLOW-ts-origin, MUST-wo-node,
 MUST-unlink-both (C01, C05, C06, C07, C11)."""
 from .core import RuleResult, CheckFailure
+from .roles import named
 from .kernel import norm
 from .roles import (get_roles, HASHMAP_REMOVE, HASHMAP_INSERT, DASHMAP_REMOVE, DASHMAP_INSERT, HASHMAP_MUT, DASHMAP_MUT)
 from .symex import fmt, subterms, PathLimit
@@ -18,8 +19,6 @@ def _run(ctx, nid, **kw):
 
 
 def _no_evict(n, b, d):
-    if n.endswith(('::evict_expired', '::evict_lru_entries', '::evict_expired_if_needed')) and 'unsync' in n:
-        return False if not n.endswith('evict_expired_if_needed') else None
     return None
 
 
@@ -124,7 +123,8 @@ def rule_must_insert(ctx):
                    'parameter) -- no path returns with an older value for the key still in place')
     prog = ctx.prog
     nid = 'unsync::cache::Cache::insert'
-    for p in _run(ctx, nid, inline_depth=3, inline_pred=lambda n, b, d: False if n.endswith(('handle_insert', 'handle_update', 'evict_expired', 'evict_lru_entries')) else None):
+    keep = {named(ctx, k) for k in ('unsync.insert_handler', 'unsync.update_handler', 'unsync.evict_expired', 'unsync.evict_lru')}
+    for p in _run(ctx, nid, inline_depth=3, inline_pred=lambda n, b, d: False if n in keep else None):
         ins = [e for e in p.events if e[0] == 'call' and e[1] == 'std::collections::HashMap::insert']
         ok = bool(ins) and any(any(x == ('param', 3) for x in subterms(e[2][2])) for e in ins if len(e[2]) > 2)
         r.instance(function=nid, map_insert=bool(ins), stores_value_param=ok)
@@ -144,7 +144,7 @@ def rule_must_insert(ctx):
                 r.violate(nid, 'no-map-write', 'DashMap::entry', 'a normal path of sync insert does not go through entry().and_modify().or_insert_with()',
                           where=ctx.where(nid), path=[fmt(c)[:70] + ' == ' + str(v) for c, v in p.conds][:6])
         # closures store the value
-        root = 'sync::base_cache::BaseCache::do_insert_with_hash'
+        root = named(ctx, 'sync.do_insert')
         for c in prog.closures_of.get(root, []):
             for p in _run(ctx, c, inline_depth=4):
                 val_used = any(isinstance(x, tuple) and x and x[0] == 'call' and str(x[1]).endswith('ValueEntry::new') for ev in p.events for x in subterms(ev[2] if ev[0] == 'write' else ()) ) or \
@@ -206,7 +206,7 @@ def rule_update_resets(ctx):
                    'store of the entry on every path (when the entry has the corresponding timestamp), so an update restarts ttl and tti')
     prog = ctx.prog
     # sync: closure passed to and_modify
-    root = 'sync::base_cache::BaseCache::do_insert_with_hash'
+    root = named(ctx, 'sync.do_insert')
     n = 0
     if root in prog.bodies:
         b = prog.bodies[root]
@@ -242,7 +242,7 @@ def rule_update_resets(ctx):
         if not clock:
             r.violate(root, 'update-ts-origin', 'ts', 'the timestamp captured by the update closure is not a clock reading taken in this insert', where=ctx.where(root))
     # unsync: update role = handle_update
-    nid = 'unsync::cache::Cache::handle_update'
+    nid = named(ctx, 'unsync.update_handler')
     for p in _run(ctx, nid, inline_depth=5):
         ts_some = None
         for c, v in p.conds:
@@ -273,9 +273,9 @@ def rule_wo_node(ctx):
     r = RuleResult('MUST-wo-node', 'every admission creates the write-order node exactly when time_to_live is configured (the node carries '
                    'the last-modified time; without it the entry never expires by ttl and an update of it panics)')
     prog = ctx.prog
-    fns = [('unsync::cache::Cache::handle_insert', {})]
-    if 'sync::base_cache::Inner::handle_upsert' in prog.bodies:
-        fns.append(('sync::base_cache::Inner::handle_upsert', {}))
+    fns = [(named(ctx, 'unsync.insert_handler'), {})]
+    if ctx.has_sync:
+        fns.append((named(ctx, 'sync.upsert'), {}))
     n = 0
     for nid, _ in fns:
         for p in _run(ctx, nid, inline_depth=4, loop_visits=2, inline_pred=lambda n_, b, d: False if 'handle_remove' in n_ else None):
@@ -418,7 +418,7 @@ def rule_must_expire(ctx):
     for m in sorted(R.maintenance):
         for p in _run(ctx, m, inline_depth=1, loop_visits=2, inline_pred=lambda n_, b, d: False):
             d = conf_lits(p)
-            called = any(e[0] == 'call' and str(e[1]).endswith('Inner::evict_expired') for e in p.events)
+            called = any(e[0] == 'call' and str(e[1]) == named(ctx, 'sync.evict_expired') for e in p.events)
             # a path may skip the expiry step only after establishing that neither expiry nor a watermark exists
             established_off = d.get('has_expiry') is False and d.get('has_valid_after') is False
             should = d.get('has_expiry') is True or d.get('has_valid_after') is True or not established_off
@@ -430,13 +430,14 @@ def rule_must_expire(ctx):
                                                                                [fmt(c)[:50] + '==' + str(v) for c, v in p.conds if 'has_' not in fmt(c)][:4]), where=ctx.where(m),
                           expected='if self.has_expiry() || self.has_valid_after() { self.evict_expired(..) }')
     # the expiry steps themselves
-    for nid, kind in (('sync::base_cache::Inner::evict_expired', 'sync'), ('unsync::cache::Cache::evict_expired', 'unsync')):
+    for nid, kind in ((named(ctx, 'sync.evict_expired'), 'sync'), (named(ctx, 'unsync.evict_expired'), 'unsync')):
         if nid not in prog.bodies:
             continue
-        for p in _run(ctx, nid, inline_depth=2, loop_visits=2, inline_pred=lambda n_, b, d: False if 'remove_expired' in n_ else None):
+        scans = {named(ctx, kind + '.scan_wo'), named(ctx, kind + '.scan_ao')}
+        for p in _run(ctx, nid, inline_depth=2, loop_visits=2, inline_pred=lambda n_, b, d, _s=scans: False if n_ in _s else None):
             d = conf_lits(p)
-            wo = sum(1 for e in p.events if e[0] == 'call' and str(e[1]).endswith('remove_expired_wo'))
-            ao = sum(1 for e in p.events if e[0] == 'call' and str(e[1]).endswith('remove_expired_ao'))
+            wo = sum(1 for e in p.events if e[0] == 'call' and str(e[1]) == named(ctx, kind + '.scan_wo'))
+            ao = sum(1 for e in p.events if e[0] == 'call' and str(e[1]) == named(ctx, kind + '.scan_ao'))
             ttl = d.get('time_to_live', d.get('is_write_order_queue_enabled'))
             tti = d.get('time_to_idle')
             va = d.get('has_valid_after')
